@@ -33,7 +33,7 @@ Proof.
   destruct n as [[|c r]|s|z|]; try (destruct s); eauto.
   destruct (c =? 58) eqn:E; [eauto|]. simpl in H.
   destruct v as [vb|s|z|]; simpl; eauto.
-  - rewrite !has_ctl_ctl_free.
+  - destruct (starts_colon (strip (c :: r))); [eauto|]. simpl in H. rewrite !has_ctl_ctl_free.
     destruct (ctl_free (strip (c :: r))); simpl in *; [|eauto].
     rewrite H. simpl. eauto.
   - destruct (z <? 0)%Z eqn:L; [eauto|].
@@ -41,6 +41,7 @@ Proof.
     assert (Hz : has_ctl (strip (repeat 0 (Z.to_nat (Z.pos p)))) = true).
     { assert (G : exists k, Z.to_nat (Z.pos p) = S k) by (exists (Nat.pred (Pos.to_nat p)); simpl; lia).
       destruct G as [k ->]. rewrite strip_zeros. reflexivity. }
+    destruct (starts_colon (strip (c :: r))); [eauto|].
     rewrite Hz, orb_true_r. eauto.
 Qed.
 
@@ -60,8 +61,31 @@ Proof.
   destruct hn as [[|c r]|s|z|]; try discriminate; try (destruct s; discriminate).
   destruct (c =? 58); [discriminate|].
   destruct (bytes_of_hval hv) as [vb|]; [|discriminate].
+  destruct (starts_colon (strip (c :: r))); [discriminate|].
   destruct (has_ctl (strip (c :: r)) || has_ctl (strip vb)) eqn:E; [discriminate|].
   intro H. injection H as <- <-. apply orb_false_iff in E. exact E.
+Qed.
+
+(* ... and is no pseudo header: the name that reaches the wire does not begin with a colon, whatever white space the
+   application put around it (finding F67) *)
+Lemma validate_header_no_pseudo h n v : validate_header h = Ok (n, v) -> starts_colon n = false.
+Proof.
+  destruct h as [hn hv]. unfold validate_header.
+  destruct hn as [[|c r]|s|z|]; try discriminate; try (destruct s; discriminate).
+  destruct (c =? 58); [discriminate|].
+  destruct (bytes_of_hval hv) as [vb|]; [|discriminate].
+  destruct (starts_colon (strip (c :: r))) eqn:P; [discriminate|].
+  destruct (has_ctl (strip (c :: r)) || has_ctl (strip vb)); [discriminate|].
+  intro H. injection H as <- <-. exact P.
+Qed.
+Lemma validate_headers_no_pseudo hs l :
+  validate_headers hs = Ok l -> Forall (fun h => starts_colon (fst h) = false) l.
+Proof.
+  revert l. induction hs as [|h r IH]; simpl; intros l H.
+  - injection H as <-. constructor.
+  - destruct (validate_header h) as [[n v]|] eqn:E; [|discriminate].
+    destruct (validate_headers r) as [r'|]; [|discriminate]. injection H as <-.
+    constructor; [apply (validate_header_no_pseudo _ _ _ E)|apply IH; reflexivity].
 Qed.
 
 Lemma validate_headers_clean hs l :
@@ -78,8 +102,8 @@ Lemma header_ok_validate h : header_ok h = true -> exists h', validate_header h 
 Proof.
   destruct h as [n v]. unfold header_ok, validate_header. simpl.
   destruct n as [[|c r]|s|z|]; try discriminate. destruct v as [vb|s|z|]; try discriminate.
-  intro H. apply andb_true_iff in H as [H H3]. apply andb_true_iff in H as [H1 H2].
-  apply negb_true_iff in H1. rewrite H1. simpl. rewrite !has_ctl_ctl_free, H2, H3. simpl. eauto.
+  intro H. apply andb_true_iff in H as [H H3]. apply andb_true_iff in H as [H H2]. apply andb_true_iff in H as [H1 H0].
+  apply negb_true_iff in H1, H0. rewrite H1. simpl. rewrite H0. rewrite !has_ctl_ctl_free, H2, H3. simpl. eauto.
 Qed.
 
 Lemma headers_ok_validate hs : headers_ok hs = true -> exists l, validate_headers hs = Ok l.
